@@ -22,9 +22,42 @@ struct MaskDelegate {
     mask: Vec<bool>,
     k: usize,
     log: Vec<Ev>,
+    /// stateful flavour (like the attribute/ignore stacks of gix-worktree): the delegate keeps its own
+    /// stack of open directories and from then on REJECTS every call that does not fit it — its
+    /// later behaviour depends on whether an earlier failed/misplaced call left something behind
+    strict: bool,
+    dirs: Vec<Vec<u8>>,
+    inconsistent: Option<String>,
 }
 
 impl MaskDelegate {
+    /// does a call for `path` fit the delegate's own open directories (its parent is the top)?
+    fn fits(&mut self, what: &str, path: &[u8], is_dir_push: bool) -> bool {
+        if !self.strict {
+            return true;
+        }
+        let parent: Option<Vec<u8>> = if path.is_empty() {
+            None
+        } else {
+            Some(match path.iter().rposition(|b| *b == b'/') {
+                Some(p) => path[..p].to_vec(),
+                None => Vec::new(),
+            })
+        };
+        let ok = match (&parent, self.dirs.last()) {
+            (None, None) => is_dir_push,
+            (Some(p), Some(top)) => p == top,
+            _ => false,
+        };
+        if !ok && self.inconsistent.is_none() {
+            self.inconsistent = Some(format!(
+                "{what}({:?}) does not fit the delegate's own open directories {:?}",
+                String::from_utf8_lossy(path),
+                self.dirs.iter().map(|d| String::from_utf8_lossy(d).into_owned()).collect::<Vec<_>>()
+            ));
+        }
+        ok
+    }
     fn next_fails(&mut self) -> bool {
         let f = self.mask.get(self.k).copied().unwrap_or(false);
         self.k += 1;
@@ -38,9 +71,12 @@ fn rejected() -> std::io::Error {
 
 impl gix_fs::stack::Delegate for MaskDelegate {
     fn push_directory(&mut self, stack: &Stack) -> std::io::Result<()> {
-        let fails = self.next_fails();
-        self.log
-            .push(Ev::PushDir(stack.current_relative().as_os_str().as_bytes().to_vec(), !fails));
+        let path = stack.current_relative().as_os_str().as_bytes().to_vec();
+        let fails = self.next_fails() | !self.fits("push_directory", &path, true);
+        self.log.push(Ev::PushDir(path.clone(), !fails));
+        if !fails {
+            self.dirs.push(path);
+        }
         if fails {
             Err(rejected())
         } else {
@@ -48,7 +84,8 @@ impl gix_fs::stack::Delegate for MaskDelegate {
         }
     }
     fn push(&mut self, is_last_component: bool, stack: &Stack) -> std::io::Result<()> {
-        let fails = self.next_fails();
+        let path = stack.current_relative().as_os_str().as_bytes().to_vec();
+        let fails = self.next_fails() | !self.fits("push", &path, false);
         self.log.push(Ev::Push(
             stack.current_relative().as_os_str().as_bytes().to_vec(),
             is_last_component,
@@ -61,6 +98,9 @@ impl gix_fs::stack::Delegate for MaskDelegate {
         }
     }
     fn pop_directory(&mut self) {
+        if self.strict && self.dirs.pop().is_none() && self.inconsistent.is_none() {
+            self.inconsistent = Some("pop_directory with none of the delegate's directories open".into());
+        }
         self.log.push(Ev::Pop);
     }
 }
@@ -111,6 +151,10 @@ fn expected_open(rel: &Path, with_leaf: bool) -> Vec<PathBuf> {
 }
 
 fn do_history(rep: &mut Report, mask: &[bool], paths: &[Vec<u8>], nontrivial: bool) -> Outcome {
+    do_history_with(rep, mask, paths, nontrivial, false)
+}
+
+fn do_history_with(rep: &mut Report, mask: &[bool], paths: &[Vec<u8>], nontrivial: bool, strict: bool) -> Outcome {
     let root = PathBuf::from(ROOT);
     let mut op = format!("hist {}", mask_str(mask));
     for p in paths {
@@ -121,7 +165,13 @@ fn do_history(rep: &mut Report, mask: &[bool], paths: &[Vec<u8>], nontrivial: bo
         mask: mask.to_vec(),
         k: 0,
         log: Vec::new(),
+        strict,
+        dirs: Vec::new(),
+        inconsistent: None,
     };
+    if strict {
+        rep.bucket("stateful-delegate");
+    }
     let mut s = Stack::new(root.clone());
     let mut obs = Vec::new();
     let mut violation: Option<String> = None;
@@ -235,6 +285,11 @@ fn do_history(rep: &mut Report, mask: &[bool], paths: &[Vec<u8>], nontrivial: bo
                 "open directories {:?} are not the directories of current_relative {:?}",
                 open, relp
             ));
+        }
+    }
+    if let Some(what) = &d.inconsistent {
+        if violation.is_none() {
+            violation = Some(format!("stateful delegate: {what}"));
         }
     }
     let obs = obs.join(";");
@@ -453,7 +508,8 @@ fn main() {
             paths.push(p);
         }
         let mask = gen_mask(&mut r);
-        do_history(&mut rep, &mask, &paths, true);
+        let strict = r.chance(1, 2);
+        do_history_with(&mut rep, &mask, &paths, true, strict);
     }
     rep.finish();
 }
